@@ -536,22 +536,7 @@ impl Quantity {
             .add_point_zero(false)
             .force_no_e_notation()
             .round();
-
-        // Round to the requested number of decimals up front: the float formatter cannot
-        // round a number up into a digit position it would not otherwise print (such as
-        // 0.5 with precision 0 or 0.05 with precision 1).
-        let scale = 10.0_f64.powi(precision.max(0) as i32);
-        let rounded_value = (self.value.to_f64() * scale).round() / scale;
-        let rounded = if rounded_value.is_finite() {
-            Quantity {
-                value: Number::from_f64(rounded_value),
-                ..self.clone()
-            }
-        } else {
-            self.clone()
-        };
-
-        rounded.pretty_print_internal(&FormatOptions::default(), Some(dtoa_config))
+        self.pretty_print_internal(&FormatOptions::default(), Some(dtoa_config))
     }
 
     pub fn unsafe_value_as_string(&self) -> CompactString {
